@@ -117,7 +117,7 @@ fn live_delta(evs: &[Ev]) -> i64 {
 }
 
 fn run1(op: &[u64]) -> Vec<u64> {
-    if op.len() == 3 && op[0] >= 20 && op[0] < 60 {
+    if op.len() == 3 && op[0] >= 20 && op[0] < 80 {
         return crate::dpanic::run1(op[0] - 20, op[1] as usize, op[2]);
     }
     if op.len() < 6 {
